@@ -393,7 +393,8 @@ Definition no_parent (_ : ent) (en : entity) : Prop := en_parent en = None.
 Lemma serve_all_msgs pr c m : m ∈ (serve_all pr c).2 -> not_parented m.
 Proof.
   unfold serve_all. destruct (class_enabled pr (KClass c)); simpl; [|intros H; inversion H].
-  intros H. apply elem_of_list_fmap in H as [[a v] [-> _]]. exact I.
+  intros H. apply elem_of_app in H as [H|H];
+    apply elem_of_list_fmap in H as [[a v] [-> _]]; exact I.
 Qed.
 
 (* the entity part of the snapshot: all spawns, then all component values; as a set, the messages
@@ -813,7 +814,7 @@ Proof.
 Qed.
 Lemma process_assets_core pr c done : core (process_assets pr c done) = core pr.
 Proof.
-  unfold process_assets. apply foldl_core. intros a [[c' x] v]. cbv beta iota.
+  unfold process_assets. apply foldl_core. intros a [[[c' x] v] lst]. cbv beta iota.
   destruct (_ =? _); reflexivity.
 Qed.
 Lemma sync_detect_core pr t last : core (sync_detect pr t last) = core pr.
@@ -868,7 +869,7 @@ Proof.
 Qed.
 Lemma process_assets_out pr c done : p_out (process_assets pr c done) = p_out pr.
 Proof.
-  unfold process_assets. apply foldl_out_eq. intros a [[c' x] v]. cbv beta iota.
+  unfold process_assets. apply foldl_out_eq. intros a [[[c' x] v] lst]. cbv beta iota.
   destruct (_ =? _); reflexivity.
 Qed.
 Lemma sync_detect_out pr t last : p_out (sync_detect pr t last) = p_out pr.
